@@ -76,9 +76,9 @@ structure Params where
 
 abbrev DB := List Utxo
 
-def get (id : Nat) (db : DB) : Option Utxo := db.find? (fun u => u.id == id)
-def del (id : Nat) (db : DB) : DB := db.filter (fun u => u.id != id)
-def put (u : Utxo) (db : DB) : DB := u :: del u.id db
+def dbGet (id : Nat) (db : DB) : Option Utxo := db.find? (fun u => u.id == id)
+def dbDel (id : Nat) (db : DB) : DB := db.filter (fun u => u.id != id)
+def dbPut (u : Utxo) (db : DB) : DB := u :: dbDel u.id db
 
 inductive DbOp
   | del (id : Nat)
@@ -86,8 +86,8 @@ inductive DbOp
 deriving Repr
 
 def applyOp (db : DB) : DbOp → DB
-  | .del id => del id db
-  | .put u => put u db
+  | .del id => dbDel id db
+  | .put u => dbPut u db
 
 def applyOps (ops : List DbOp) (db : DB) : DB := ops.foldl applyOp db
 
@@ -189,12 +189,12 @@ def core (u : Utxo) : Utxo := { u with validHeight := 0 }
     wallet projection of consensus validity (inputs are unspent outputs of the chain) plus
     "an output id determines its content". -/
 def validTxB (P : Params) (t : Tx) (db : DB) : Bool :=
-  t.outs.all (fun o => (get o.id db).isNone) &&
+  t.outs.all (fun o => (dbGet o.id db).isNone) &&
   t.ins.all (fun i => match inUtxo i with
     | none => true
     | some u => match owned P u with
-      | some u' => (get u.id db).map core == some (core u')
-      | none => !P.p2w u.prog || (get u.id db).isNone)
+      | some u' => (dbGet u.id db).map core == some (core u')
+      | none => !P.p2w u.prog || (dbGet u.id db).isNone)
 
 /-- no vote output of the transaction pays to a wallet program (excludes F14) -/
 def noOwnedVoteB (P : Params) (t : Tx) : Bool :=
